@@ -79,6 +79,16 @@ def scenarios(pid, quick):
                 [{'uid': 't1', 'descr': d, 'with_next': True}, {'uid': 't2'}],
                 {'t1': 1 if f == 'exit1' else 0, 't2': 0},
                 fault=f, fault_uid='t1')
+        # one bulk spread over two pilots by the client side scheduler; the
+        # second pilot's agent is outside the world
+        for order in ((0, 1), (1, 0)):
+            d = dict(STAGE_FAULT['stage:tmgr_in'])
+            tasks = [{'uid': 't1', 'descr': d}, {'uid': 't2'}]
+            tasks = [dict(tasks[i]) for i in order]
+            tasks[0]['with_next'] = True
+            add('pilots2/stage:tmgr_in/%d%d' % order, tasks,
+                {'t1': 0, 't2': 0}, fault='stage:tmgr_in', fault_uid='t1',
+                pilots=2)
         if not quick:
             for f in faults:
                 d = dict(STAGE_FAULT.get(f, {}))
@@ -167,6 +177,8 @@ def judge(part, pid, w, scn):
             role  = 'named' if uid in named else \
                     'faulty:%s' % fault if is_faulty else 'bystander'
 
+            if s not in FINAL and w.sunk(uid):
+                continue       # handed to the pilot outside this world
             if s not in FINAL:
                 for prop in ('C05', 'C08'):
                     viol(prop, 'never-final', _site_of(w, uid), role,
@@ -323,6 +335,11 @@ def run(ctx):
         from checks import c07_executor
         sched_check.run_sched(ctx, 'C08')
         c07_executor.run_exec(ctx, 'C08')
+
+    if ctx.pid == 'C05':
+        # the executor's interleavings: exactly one hand-on per task
+        from checks import c07_executor
+        c07_executor.run_exec(ctx, 'C05')
 
     ctx.set(rule='explicit-state BFS over pipeline worlds (deepcopy clones): '
                  'events = one work_cb() of a component with pending input, '
